@@ -34,6 +34,7 @@ type bEngine struct {
 	loopAbs    bool
 	allocMax   *big.Int
 	nilable    bool // pointer fields of symbolic inputs have a symbolic nil-ness
+	callbackPure string // non-empty: calls of function values are assumed not to touch polynomial storage (clause `callback`)
 	nilsafe    bool // dereferences of possibly-nil pointers are obligations (nil-deref)
 	safety     bool // the contract asks for the run-time-panic obligations of make and slicing
 }
@@ -579,4 +580,73 @@ func (e *bEngine) nonNil(st *bState, p bPtr) bPtr {
 		p.nilv = nil
 	}
 	return p
+}
+
+// sameVal: the two values are equal, component by component (spec builtin sameval).
+func (e *bEngine) sameVal(st *bState, x, y bVal, what string) *Term {
+	switch a := x.(type) {
+	case bScalar:
+		if b, ok := y.(bScalar); ok && a.t.Sort == b.t.Sort {
+			return st.norm(Eq(a.t, b.t))
+		}
+	case bPtr:
+		if b, ok := y.(bPtr); ok {
+			if t, ok := e.refEq(a, b); ok {
+				return st.norm(t)
+			}
+		}
+	case bSlice:
+		if b, ok := y.(bSlice); ok {
+			if a.nil_ || b.nil_ {
+				return Bool(a.nil_ && b.nil_)
+			}
+			if a.arr != b.arr {
+				return TFalse
+			}
+			return st.norm(Eq(a.len, b.len))
+		}
+	case bOpaque:
+		if b, ok := y.(bOpaque); ok {
+			return Bool(a.name == b.name)
+		}
+	case *bIface:
+		if b, ok := y.(*bIface); ok {
+			if a.isNil || b.isNil {
+				return Bool(a.isNil && b.isNil)
+			}
+			if a.sym != "" && a.sym == b.sym {
+				return TTrue
+			}
+			if a.val != nil && b.val != nil && types.Identical(a.dyn, b.dyn) {
+				return e.sameVal(st, a.val, b.val, what)
+			}
+			return TFalse
+		}
+	case *bStruct:
+		b, ok := y.(*bStruct)
+		if !ok {
+			break
+		}
+		if a.sym != "" && a.sym == b.sym && a.ver == b.ver {
+			return TTrue
+		}
+		var cs []*Term
+		switch u := a.typ.Underlying().(type) {
+		case *types.Struct:
+			for i := 0; i < u.NumFields(); i++ {
+				n := u.Field(i).Name()
+				cs = append(cs, e.sameVal(st, e.field(st, a, n), e.field(st, b, n), what+"."+n))
+			}
+		case *types.Array:
+			if u.Len() > 64 {
+				panic(verr("spec(B): sameval on an array of %d elements (%s)", u.Len(), what))
+			}
+			for i := int64(0); i < u.Len(); i++ {
+				n := fmt.Sprintf("[%d]", i)
+				cs = append(cs, e.sameVal(st, e.field(st, a, n), e.field(st, b, n), what+n))
+			}
+		}
+		return And(cs...)
+	}
+	panic(verr("spec(B): sameval: %s: values of different or unsupported shape (%s / %s)", what, describeVal(x), describeVal(y)))
 }
